@@ -8,6 +8,8 @@ C17.N  every flavour mnemonic is a GenericInstr name; parser lookup
 C17.Y  operand printers and operand parsers use the same symbols; register bank
        names are single characters (the parser takes register[0])
 C17.X  = C03.X (a printed literal stays a literal exactly where the class wants an Immediate)
+C17.T  the round trip itself, executed: str(instruction) by the class's own printer, then parse_text_subroutine with the class's
+       flavour, for every registered class and enumerated operand values; same class and equal operand fields must come back
 """
 from __future__ import annotations
 
@@ -30,10 +32,11 @@ EXPLANATION = (
     "equals the Immediate positions."
     ' C17.O: what reaches the constructor in from_operands is the parsed operand itself, at most wrapped as Immediate(<it>). C17.Y: all operand parsers recognise integers through the one shared helper. C17.N: the mnemonic table consulted by the parser is owned per flavour instance.'
     ' C17.O executes every from_operands abstractly on distinguishable operand objects (raw ints and Immediates at the immediate positions): field i holds operand i unchanged.'
+    " C17.T executes the round trip: for every instruction class registered in a flavour, instances with enumerated operand values (registers of every bank at indices 0, 7 and 15, immediates 0, 1, 200 and for 32-bit fields -5 and 70000, addresses 0, 3, 7 and 70000, array entries and slices with register indices, a template where admitted) are printed by the class's own __str__ and parsed back by parse_text_subroutine with that flavour, all inside the checker's interpreter; the parsed instruction must be of the same class with equal operand fields."
 )
 LEVEL_TEXT = (
     "Static analysis, partial: printer/parser agreement is decided per shape, per operand kind and per symbol for all classes of all "
-    "flavours (the tests never parse printed text). Not decided: the hand-written tokenizer's behaviour on arbitrary strings."
+    "flavours (the tests never parse printed text). The tokenizer and parser are executed on the printed form of every class (C17.T); their behaviour on arbitrary hand-written strings is not decided."
 )
 LEVEL_NOTE = "not decided: tokenizer (group_by_word) behaviour on arbitrary strings; int()/str() round trip of Python ints is trusted"
 ASSUMPTIONS = [LEVEL_NOTE]
@@ -280,6 +283,139 @@ def check_from_operands(ctx):
                           fo.loc(fn), trivial=True)
 
 
+def check_round_trip(ctx, rule="C17.T"):
+    """"Printed assembly parses back", decided by executing the printer and the parser of the repository in the checker's interpreter.
+
+    For every instruction class registered in a flavour, instances are built from enumerated operand values chosen by the
+    declared operand types (registers of every bank at indices 0 and 15, immediates 0 / 1 / 200 and - where the wire field is
+    32 bits wide - -5 and 70000, addresses 0 and 7, array entries and slices with register indices, a template where the field
+    admits one).  str(instruction) is computed by the class's own __str__ / _pretty_print; the line, under a standard
+    preamble, goes through parse_text_subroutine with the class's flavour; the result must be one instruction of the same class
+    whose operand fields equal the original's, value by value."""
+    from .. import circuit as C
+    from ..model import EnumMember
+    repo, ev = ctx.repo, ctx.ev
+    tm = repo.module("netqasm.lang.parsing.text")
+    parse = tm.functions.get("parse_text_subroutine")
+    if parse is None:
+        raise AnalysisError("text.parse_text_subroutine not found")
+    ctx.fn("text.parse_text_subroutine")
+    opm = repo.module(I.OPERAND_MOD)
+    K = opm.classes
+    rn = repo.get_class("netqasm.lang.encoding", "RegisterName")
+    rmem = ev.enum_members(rn)
+    banks = sorted(rmem, key=lambda b_: rmem[b_])
+
+    def reg(bank, idx):
+        return C.Obj(K["Register"], {"name": EnumMember(rn.qualname, bank, rmem[bank]), "index": idx})
+
+    def value_of(types, variant, pos, wide):
+        """an operand value for a field admitting `types` (variant 0: smallest, 1: largest, 2: mixed / unusual)"""
+        t = set(types)
+        if "Register" in t and not (variant == 2 and "Immediate" in t):
+            return reg(banks[(pos + variant) % len(banks)], (0, 15, 7)[variant])
+        if "Template" in t and variant == 2:
+            return C.Obj(K["Template"], {"name": f"tpl{pos}"})
+        if "Immediate" in t:
+            v = (0, 200, 1)[variant]
+            if wide and variant == 1:
+                v = 70000
+            if wide and variant == 2:
+                v = -5
+            return C.Obj(K["Immediate"], {"value": v})
+        if "ArrayEntry" in t:
+            return C.Obj(K["ArrayEntry"], {"address": C.Obj(K["Address"], {"address": (0, 7, 3)[variant]}), "index": reg("R", (0, 15, 2)[variant])})
+        if "ArraySlice" in t:
+            return C.Obj(K["ArraySlice"], {"address": C.Obj(K["Address"], {"address": (0, 7, 3)[variant]}), "start": reg("R", (0, 14, 2)[variant]), "stop": reg("R", (1, 15, 3)[variant])})
+        if "Address" in t:
+            return C.Obj(K["Address"], {"address": (0, 7, 70000)[variant]})
+        return None
+
+    def plain(v):
+        """a comparable picture of an operand value, whichever model the interpreter used for it"""
+        if isinstance(v, C.Imm):
+            return ("imm", v.value)
+        if isinstance(v, EnumMember):
+            return ("enum", v.name)
+        if isinstance(v, C.Obj) and v.cls is not None:
+            if v.cls.name == "Immediate":
+                return ("imm", v.fields.get("value"))
+            return (v.cls.name,) + tuple((k_, plain(x_)) for k_, x_ in sorted(v.fields.items()) if k_ != "lineno")
+        if isinstance(v, bool) or not isinstance(v, (int, str, type(None))):
+            return ("?", repr(v))
+        return v
+
+    n_cls = n_inst = 0
+    flav_objs = {}
+    # the literal-exception table of the assembler is built by module-level loops: evaluated by the constant evaluator and handed in
+    gi_ = repo.get_class("netqasm.lang.ir", "GenericInstr")
+    gm_ = ev.enum_members(gi_)
+    exc_globals = {"_REPLACE_CONSTANTS_EXCEPTION": [(EnumMember(gi_.qualname, a_, gm_[a_]), b_) for a_, b_ in sorted(c03.exception_table(ctx))]}
+    for fname, (fc, core, spec) in sorted(I.flavours(repo).items()):
+        for c in core + spec:
+            ops = I.operands_attrs(repo, c)
+            if ops is None:
+                continue
+            anns = {n_: ann for n_, ann, k_ in I.operand_fields(repo, c)}
+            reals = [repo.property_alias(c, a_) or a_ for a_ in ops]
+            types = [I.ann_types(anns.get(r_)) for r_ in reals]
+            # 32-bit immediates: from the struct the class serialises into
+            wide = set()
+            so = I.shape_owner(repo, c, "serialize")
+            if so is not None:
+                try:
+                    ser = I.analyse_serialize(repo, so, so.methods["serialize"])
+                    if ser.struct is not None:
+                        ft = I.struct_field_types(ev, ser.struct)
+                        for fld, (t_, bits) in ft.items():
+                            if getattr(t_, "size", 0) >= 4 and bits is None and fld in reals:
+                                wide.add(fld)
+                except (AnalysisError, Unknown):
+                    pass
+            n_cls += 1
+            mn = I.field_default(repo, ev, c, "mnemonic")
+            bad = None
+            done = set()
+            for variant in (0, 1, 2):
+                vals = {r_: value_of(t_, variant, i_, r_ in wide) for i_, (r_, t_) in enumerate(zip(reals, types))}
+                if any(v is None for v in vals.values()):
+                    bad = bad or f"operand types {types} outside the enumerated kinds"
+                    break
+                key = repr({k_: plain(v_) for k_, v_ in vals.items()})
+                if key in done:
+                    continue
+                done.add(key)
+                n_inst += 1
+                sc = C.Scenario()
+                sc.plain_registers, sc.max_depth, sc.run_constructors, sc.strict_text = True, 40, True, True
+                sc.globals = exc_globals
+                inst = C.Obj(c, dict(vals, lineno=None))
+                text = None
+                try:
+                    text = C.Interp(repo, ev, sc, None).method(inst, "__str__", [], {}, None)
+                    if not isinstance(text, str):
+                        bad = bad or f"str(instruction) is {text!r}"
+                        continue
+                    if fname not in flav_objs:
+                        flav_objs[fname] = C.Interp(repo, ev, sc, None).construct(fc, [], {}, None)
+                    out = C.Interp(repo, ev, sc, None).call_function(tm, parse, ["# NETQASM 0.0\n# APPID 0\n" + text + "\n"], {"flavour": flav_objs[fname]})
+                except C.EvalRaise as ex_:
+                    bad = bad or f"`{text if isinstance(text, str) else '?'}` does not parse back: {ex_}"
+                    continue
+                ins = out.fields.get("_instructions", out.fields.get("instructions")) if isinstance(out, C.Obj) else None
+                if not isinstance(ins, list) or len(ins) != 1 or not isinstance(ins[0], C.Obj) or ins[0].cls is not c:
+                    bad = bad or f"`{text}` parses back as {ins!r}"[:300]
+                    continue
+                got = {r_: plain(ins[0].fields.get(r_)) for r_ in reals}
+                want = {r_: plain(v_) for r_, v_ in vals.items()}
+                if got != want:
+                    diff = next(r_ for r_ in reals if got[r_] != want[r_])
+                    bad = bad or f"`{text}` parses back with {diff} = {got[diff]!r}, printed from {want[diff]!r}"
+            ctx.check(rule, f"{fname}:{mn}:printed-line-parses-back", bad is None, f"{fname} {c.name}: {bad}", c.loc(), sample={"flavour": fname, "mnemonic": mn}, trivial=(n_cls % 4 != 1))
+    ctx.anchor(rule, "instruction classes printed and parsed back", n_cls, 100)
+    ctx.check(rule, "instances-round-tripped", n_inst >= 2 * n_cls, f"only {n_inst} instances for {n_cls} classes", "", sample={"instances": n_inst}, trivial=True)
+
+
 def check_symbols(ctx):
     repo, ev = ctx.repo, ctx.ev
     om = repo.module(I.OPERAND_MOD)
@@ -435,6 +571,10 @@ def run(ctx):
     check_from_operands(ctx)
     check_mnemonics(ctx)
     check_symbols(ctx)
+    try:
+        check_round_trip(ctx, "C17.T")
+    except AnalysisError as ex_:
+        ctx.error("C17.T", f"printer / parser cannot be evaluated: {ex_}")
     c03.check_exception_table(ctx, "C17.X")
     # the parser resolves a mnemonic through the flavour's own name table
     from . import c01
@@ -444,6 +584,9 @@ def run(ctx):
 B = "netqasm/lang/instr/base.py"
 OP = "netqasm/lang/operand.py"
 SEEDS = [
+    dict(id="c17-register-index-first-digit", file="netqasm/lang/parsing/text.py", expect="C17.T", construct="printed-line-parses-back", old="    value = _parse_constant(register[1:])\n", new="    value = _parse_constant(register[1:2])\n"),
+    dict(id="c17-negative-constants-rejected", file="netqasm/util/string.py", expect="C17.T", construct="printed-line-parses-back", old="    if number.startswith(\"-\"):\n        number = number[1:]\n    return len(number) > 0", new="    return len(number) > 0"),
+    dict(id="c17-slice-printed-stop-first", file=OP, expect="C17.T", construct="printed-line-parses-back", old="{self.start}{Symbols.SLICE_DELIM}{self.stop}", new="{self.stop}{Symbols.SLICE_DELIM}{self.start}"),
     dict(id="c17-rotation-numerator-reduced", file="netqasm/lang/instr/core.py", expect="C17.O", construct="operands-reach-the-constructor-unchanged",
          old="        return cls(reg=reg, imm0=imm0, imm1=imm1)  # type: ignore",
          new="        if isinstance(imm0, Immediate) and isinstance(imm1, Immediate):\n            imm0 = Immediate(value=imm0.value % 2 ** (imm1.value + 1))\n        return cls(reg=reg, imm0=imm0, imm1=imm1)  # type: ignore"),
